@@ -8,6 +8,7 @@ import BufrModel.Gen.PyDescriptors
 import BufrModel.Lemmas.CoderSrc
 import BufrModel.Lemmas.CoderOpSrc
 import BufrModel.Lemmas.CoderElemSrc
+import BufrModel.Lemmas.CoderWalkSrc
 import BufrModel.Props.C14Src
 set_option linter.unusedSimpArgs false
 namespace Bufr
@@ -160,5 +161,64 @@ example : ∃ (cb : PyGen.coder.Coder.process_element_descriptor.Callbacks Nat N
       fun _ _ _ _ _ _ => .error .typeError, fun _ _ _ _ _ _ => .error .typeError⟩,
     fun _ _ _ => True, ⟨12101, Descriptor.X ⟨(12101 : Nat)⟩, "K".toList, 16, 2, 0⟩, fun _ _ _ _ _ => trivial, rfl, rfl, by decide,
     ⟨fun _ _ _ _ => rfl, fun _ _ _ _ _ => rfl, fun _ _ _ _ _ => rfl, fun _ _ _ _ _ _ _ => rfl, fun _ _ _ _ _ _ _ _ _ => rfl⟩⟩
+
+/-! ### `Coder.process_members`: the member loop
+
+  Descriptor objects are the GENERATED inductive type `PyGen.coder.Descr` (one constructor per class of `descriptors.py`
+  the coder distinguishes by `type(x) is C`, attributes checked against the class declarations); `descOf : Descr → Desc`
+  (`Lemmas/CoderWalkSrc.lean`) maps them to the model's descriptors, members and factor recursively.  The generated loop
+  body is `Coder.process_members.body` (with `cont_3`, `cont_2`, `cont_1`: what follows the 221 prelude, the 203 test, the
+  206 test); `continue` ends the body.  The eight methods the loop calls are callbacks; `CbCorrM` asks of them what the
+  theorems about the generated methods establish for `process_element_descriptor`, `process_operator_descriptor`,
+  `process_bitmap_definition`, and — NOT yet discharged — for the three composite descriptors. -/
+
+/-- **One iteration of the member loop is the model's `walk1`**: the 221 countdown and the skip of elements outside
+    classes 1-9 and 31, the 203 definition branch (element descriptors only), the 206 skip, the bitmap-definition stage
+    (exactly when the state register is not `BITMAP_NA`), and the dispatch on the type of the member
+    (`UnknownDescriptor` for any other class = the model's `unknownDescr`), for every descriptor object with a
+    non-negative id, every corresponding state, and corresponding callbacks. -/
+theorem C01_src_process_members_step {V B : Type} (φ : PyGen.coder.Descr → Elem)
+    (A : PyData PyGen.coder.Descr V → B → StData → Prop)
+    (cb : PyGen.coder.Coder.process_members.Callbacks PyGen.coder.Descr V B) (P : Prims) (hcb : CbCorrM φ A cb P)
+    (x : PyGen.coder.Descr) (hx : 0 ≤ PyGen.coder.Descr.id x)
+    (v : PyGen.coder.Coder.process_members.Locals PyGen.coder.Descr V B) (s : St)
+    (h : AbsSt φ A v.state v.bit_operator s) :
+    CorrL φ A (PyGen.coder.Coder.process_members.body cb v x) (walk1 P (descOf x) s) :=
+  body_corr φ A cb P hcb x hx v s h
+
+/-- **The generated `process_members` is the model's `walkList`** on the list of members — ONE LEVEL: what the loop
+    does with a fixed replication, a delayed replication or a sequence is the callback's business (`CbCorrM.fixed`,
+    `.delayed`, `.sequence`: they correspond to `iterN (yOf id) (walkList P ms)`, the delayed-replication step, `walkList P ms`).
+
+    Missing for the full statement (`C01_src_process_members`, for every template TREE): the three composite methods
+    translated together with `process_members` as mutually recursive functions on a fuel argument, ONE `Callbacks`
+    structure for the abstract methods of `Coder` shared by all translated methods, and the induction on the fuel that
+    discharges `CbCorrM.fixed / .delayed / .sequence / .element / .operator / .bitmapDef` from
+    `C01_src_process_element_descriptor`, `C01_src_process_operator_descriptor`, `C07_src_process_bitmap_definition` and
+    this theorem. -/
+theorem C01_src_process_members_partial {V B : Type} (φ : PyGen.coder.Descr → Elem)
+    (A : PyData PyGen.coder.Descr V → B → StData → Prop)
+    (cb : PyGen.coder.Coder.process_members.Callbacks PyGen.coder.Descr V B) (P : Prims) (hcb : CbCorrM φ A cb P)
+    (ms : List PyGen.coder.Descr) (hms : ∀ m ∈ ms, 0 ≤ PyGen.coder.Descr.id m)
+    (ps : PyGen.coder.CoderState.Self PyGen.coder.Descr V) (b : B) (s : St) (h : AbsSt φ A ps b s) :
+    Corr φ A (PyGen.coder.Coder.process_members cb ps b ms) (walkList P (ms.map descOf) s) :=
+  members_core φ A cb P hcb ms hms ps b s h
+
+/-- `CbCorrM` is satisfiable — shown here only with the empty data relation (every field is then vacuous); the intended
+    instance are the generated methods themselves, which is what the missing induction would establish. -/
+example : CbCorrM (V := Nat) (B := Nat) (fun _ => default) (fun _ _ _ => False)
+    ⟨fun _ _ _ => .error .typeError, fun _ _ _ => .error .typeError, fun _ _ _ => .error .typeError,
+     fun _ _ _ => .error .typeError, fun _ _ _ => .error .typeError, fun _ _ _ => .error .typeError,
+     fun _ _ _ => .error .typeError, fun _ _ _ => .error .typeError⟩ failPrims :=
+  ⟨fun _ _ _ _ _ h => h.2.2.elim, fun _ _ _ _ h => h.2.2.elim, fun _ _ _ _ h => h.2.2.elim, fun _ _ _ _ h => h.2.2.elim,
+   fun _ _ _ _ h => h.2.2.elim, fun _ _ _ _ h => h.2.2.elim, fun _ _ _ _ h => h.2.2.elim, fun _ _ _ _ h => h.2.2.elim⟩
+
+/-- a concrete run of the generated loop: with a 221 count of 1 in force, an element of class 12 is skipped and the
+    count runs down (no callback is called) -/
+example (cb : PyGen.coder.Coder.process_members.Callbacks PyGen.coder.Descr Nat Nat)
+    (ps : PyGen.coder.CoderState.Self PyGen.coder.Descr Nat) :
+    (PyGen.coder.Coder.process_members cb { ps with data_not_present_count := 1 } 0
+      [.ElementDescriptor 12101 "K".toList 2 0 16]).map (fun r => r.1.data_not_present_count) = .ok 0 := by
+  rfl
 
 end Bufr
